@@ -45,6 +45,7 @@ def plan(tier, seed):
     n_enum = len(M.enumerate_small())
     smax = 4
     descs = [{"kind": "fixed"}]
+    descs += [{"kind": "threads", "seed": seed, "batch": b} for b in range(8 if tier == "quick" else 32)]
     descs += [{"kind": "enum", "lo": lo, "hi": min(lo + ENUM_CHUNK, n_enum), "smax": smax, "seed": seed}
               for lo in range(0, n_enum, ENUM_CHUNK)]
     n_rand = 12000 if tier == "quick" else 120000
@@ -254,9 +255,71 @@ def check_keys(v, m, ast, S, text):
                 v.bad(f"input_keys:wrong/{kind}", f"input_keys({S}, {n}) = {g!r}, expected {exp!r}", spec=text,
                       shape=list(S))
                 break
+            if n % 3 == 0 and isinstance(g, dict) and g:
+                # the caller owns what it got (it may pop inputs it has loaded): asking again - also through an equal MapSpec
+                # built from the text - gives the full answer again
+                g.pop(next(iter(g)))
+                g["<added by the caller>"] = 0
+                g2 = (m if n % 2 else type(m).from_string(str(m))).input_keys(S, n)
+                v.count("input_keys_asked_again_after_mutating_the_answer")
+                if g2 != exp:
+                    v.bad("input_keys:changed-by-mutating-an-earlier-answer", f"input_keys({S}, {n}) = {g2!r} after the dict returned before was "
+                          f"changed by the caller; expected {exp!r}", spec=text, shape=list(S))
+                    break
         v.count("input_keys_compared", N)
     except Exception as e:  # noqa: BLE001
         v.bad(exc_sig(e, "input_keys:raised"), f"input_keys({S}, n) raised: {exc_msg(e)}", spec=text)
+
+
+def check_threads(v, rng, n_threads=6, seconds=4.0):
+    """output_key / input_keys are functions of (spec, shape, index) also when several threads ask for DIFFERENT shapes at
+    the same time (independent map nodes under a thread executor do)."""
+    import sys
+    import threading
+    import time
+
+    from pipefunc.map._mapspec import MapSpec
+
+    specs = [("a[i, j, k] -> y[i, j, k]", (2, 3, 4)), ("a[i, j] -> y[i, j]", (5, 2)), ("a[i, j, k] -> y[i, j, k]", (4, 2, 3)), ("a[i] -> y[i]", (7,)),
+             ("a[i, j] -> y[i, j]", (3, 5)), ("a[i, j, k] -> y[i, j, k]", (3, 3, 2))]
+    rng.shuffle(specs)
+    specs = specs[:n_threads]
+    bad, counts = [], [0] * n_threads
+    stop = time.monotonic() + seconds
+    old = sys.getswitchinterval()
+    sys.setswitchinterval(1e-6)
+
+    def work(t):
+        text, S = specs[t]
+        m = MapSpec.from_string(text)
+        pos = M.positions(S)
+        names = [chr(ord("i") + d) for d in range(len(S))]
+        while time.monotonic() < stop and not bad:
+            for n, p in enumerate(pos):
+                k = m.output_key(S, n)
+                if tuple(k) != p:
+                    bad.append((text, S, n, "output_key", k, p))
+                    return
+                g = m.input_keys(S, n)
+                if g != {"a": p}:
+                    bad.append((text, S, n, "input_keys", g, {"a": p}))
+                    return
+            counts[t] += len(pos)
+        del names
+    try:
+        ths = [threading.Thread(target=work, args=(t,)) for t in range(n_threads)]
+        for th in ths:
+            th.start()
+        for th in ths:
+            th.join()
+    finally:
+        sys.setswitchinterval(old)
+    v.count("keys_compared_under_concurrent_threads", sum(counts))
+    v.count("thread_stress_rounds")
+    if bad:
+        text, S, n, what, got, exp = bad[0]
+        v.bad(f"{what}:wrong/under-concurrent-threads", f"{what}({S}, {n}) = {got!r}, expected {exp!r}, while other threads asked for other shapes",
+              spec=text, shape=list(S), other_specs=[x for x, _ in specs])
 
 
 def check_malformations(v, ast, rng, text):
@@ -541,6 +604,9 @@ def run_case(desc):
             judge_text(v, s, origin="fixed")
             v.count("fixed_texts")
         return v.result(keys=[], sample=None)
+    if kind == "threads":
+        check_threads(v, random.Random(f"c08-threads-{desc['seed']}-{desc['batch']}"))
+        return v.result(keys=[], sample=None)
     if kind == "enum":
         specs = M.enumerate_small()
         for i in range(desc["lo"], desc["hi"]):
@@ -613,6 +679,8 @@ def finalize(agg, tier, seed):
         floors.append(f"enumeration incomplete: {c.get('enum_specs', 0)} of {n_enum} small specs checked")
     if len(agg.keys) < (n_enum + (2000 if q else 15000)):
         floors.append(f"only {len(agg.keys)} distinct well-formed specs")
+    need("keys_compared_under_concurrent_threads", 20_000 if q else 200_000)
+    need("input_keys_asked_again_after_mutating_the_answer", 50_000 if q else 500_000)
     need("output_key_compared", 500_000 if q else 5_000_000)
     need("input_keys_compared", 500_000 if q else 5_000_000)
     need("shape_ok_compared", 100_000 if q else 500_000)
